@@ -488,6 +488,13 @@ def pushLoop (ps : PageSet Node) (target : Option PageId) : Nat → PageId → W
       | .err e => .err e
       | .ok l => .ok (sp :: l)
 
+/-- the target of the loop of `build_stack`: the last item in the stack (guaranteed ancestor) or the over-arching parent
+page (if any) or `None` -/
+def Walker.stackTarget (w : Walker Node) : Option PageId :=
+  match w.stack with
+  | top :: _ => some top.pageId
+  | [] => w.parentPage
+
 /-- `PageWalker::build_stack` -/
 def Walker.buildStack (ps : PageSet Node) (w : Walker Node) (position : Pos) : WR (Walker Node) :=
   match position.pageId with
@@ -501,11 +508,7 @@ def Walker.buildStack (ps : PageSet Node) (w : Walker Node) (position : Pos) : W
       match newPid with
       | none => Walker.popAll H (w.stack.length) w
       | some pid =>
-        let target : Option PageId :=
-          match w.stack with
-          | top :: _ => some top.pageId
-          | [] => w.parentPage
-        match pushLoop ps target (pid.length + 1) pid with
+        match pushLoop ps w.stackTarget (pid.length + 1) pid with
         | .panic s => .panic s
         | .err e => .err e
         | .ok pushed => .ok { w with stack := pushed ++ w.stack }
